@@ -458,7 +458,9 @@ def r4(ck, F):
             if p.end != "return":
                 continue
             reads = any(bb in rblocks for bb in p.blocks)
-            cond = [c for c in p.conds if c[0][0] == "bin" and "load" in show(c[0])]
+            # the deciding test is the (in)equality with INITIALIZED; other comparisons on the loaded value (debug asserts on
+            # the state's range) do not decide which dispatcher is returned
+            cond = [c for c in p.conds if c[0][0] == "bin" and c[0][1] in ("Eq", "Ne") and "load" in show(c[0])]
             if len(cond) == 1:
                 rows[(cond[0][0][1], cond[0][1] != 0)] = (reads, show(p.ret))
         # read only when load == INITIALIZED
